@@ -620,7 +620,13 @@ loopX0:    \
     CMPQ len, $0   \
     JLE cryptoBlocksDone     \
     fillCounterX1()   \
-    cryptoBlockAsmRemain(rk,tmp,src,reg3,reg1,reg2,reg3,blockCount)  \
+    MOVQ $0, (tmp)  \ // fewer than 16 bytes are left: copy them into the scratch block first, never load a full vector from src
+    MOVQ $0, 8(tmp) \
+    MOVQ len, reg2  \
+    copyAsm(tmp,src,len,reg3) \
+    SUBQ reg2, tmp  \
+    MOVQ reg2, len  \
+    cryptoBlockAsmRemain(rk,tmp,tmp,reg3,reg1,reg2,reg3,blockCount)  \
     clearRight(tmp,len,reg3,reg2) \
     MOVQ len, reg2 \
     copyAsm(dst,tmp,len,reg3)  \
